@@ -140,5 +140,6 @@ def exhaustive(tier):
 def streams(tier):
     n = 8 if tier == 'quick' else 10
     return [Stream('generated', check, strategy=lambda: c12_case(max_tasks=n), examples={'quick': 6000, 'thorough': 100000}),
+            Stream('large', check, strategy=lambda: c12_case(max_tasks=40), examples={'quick': 600, 'thorough': 10000}),
             Stream('outside-predecessors', check, strategy=lambda: c12_case(max_tasks=6, ext=True), examples={'quick': 800, 'thorough': 8000}),
             Stream('all-small-dags', check, exhaustive=exhaustive)]
